@@ -28,6 +28,22 @@ impl<'a> TokenStream for Lexer<'a> {
     fn take_error(&mut self) -> Option<EcoString> {
         self.error.take()
     }
+
+    fn skip_lines_until_directive(&mut self) {
+        loop {
+            self.s.eat_until(is_newline);
+            loop {
+                self.s.eat_while(char::is_whitespace);
+                if !self.s.eat_if("/*") {
+                    break;
+                }
+                self.block_comment();
+            }
+            if self.s.done() || self.s.at('#') {
+                return;
+            }
+        }
+    }
 }
 
 impl<'a> Lexer<'a> {
